@@ -16,7 +16,8 @@ func init() {
 		Explanation: "Decides, for every path of the per-file pipeline: R1 when (*patchRunner).Apply reports matched==false, nothing but a log line and — under --print-only — one write of the ORIGINAL bytes (the os.ReadFile result itself) to cmd.Stdout happens before the next file: no format.Node, imports.Process, diff, description, file-system mutator or any other call; the only error appended on that path is the failure of that very write; " +
 			"R2 matched can become true only under a true c.Match verdict and is false on the path where c.Replace fails; R3 FileMatcher.Match reports a match only when at least one node matched; R4 patch.File.Apply returns its src parameter itself (and a nil error) whenever no change produced a file. " +
 			"NOT decided: nothing about mtime/inode beyond 'no file-system mutator is called on that path'; behaviour of go/parser on the input." +
-			" R1 also: under --print-only the echo of an unmatched file is unconditional; R4 also: the value tested against nil is nil unless a change produced a file.",
+			" R1 also: under --print-only the echo of an unmatched file is unconditional; R4 also: the value tested against nil is nil unless a change produced a file." +
+			" R5 each file is processed once.",
 		Trusted:     commonTrusted,
 		Assumptions: commonAssumptions,
 	})
